@@ -1,3 +1,4 @@
+import WS.Lemmas.AuditGaps
 import WS.Lemmas.RoleGeneric
 import WS.Lemmas.ReaderRejects
 import WS.Lemmas.ReaderDecodes
@@ -73,6 +74,25 @@ theorem default_close_echo_any_role (c : Conn) (hc : AtBoundary c) (hw : WHealth
       c'.w.wire = c.w.wire ++ controlFrame c.w.isServer 8 (closePayload code []) (ctlKey c.w).1 ∧
       c'.w.writeErr = some .closeSent := by
   first | exact RoleGeneric.close_echoed_any .. | (apply RoleGeneric.close_echoed_any <;> assumption)
+
+
+open WS.Codec WS.ReaderDecodes WS.RoleGeneric WS.AuditGaps in
+/-- a close frame without a body is reported as CloseError 1005 with an empty reason; the default handler echoes -/
+theorem empty_close_is_1005 (c : Conn) (hc : AtBoundary c) (hw : WHealthy c.w) (hd : c.r.hClose = .dflt)
+    (key : Key) (rest : Bytes)
+    (hp : c.r.buf.pending = PFrame.enc c.r.isServer ⟨8, true, key, []⟩ ++ rest) :
+    ∃ c', advanceFrame c = (.error (.close 1005 []), c') ∧ c'.r.hlog = c.r.hlog ++ [.close 1005 []] ∧
+      c'.w.writeErr = some .closeSent ∧ c.w.wire.length < c'.w.wire.length := by
+  first | exact AuditGaps.empty_close_is_1005 .. | (apply AuditGaps.empty_close_is_1005 <;> assumption)
+
+open WS.Codec WS.ReaderDecodes WS.RoleGeneric WS.AuditGaps in
+/-- the error a ping handler returns is what the read call returns; it is latched and no pong is written -/
+theorem failing_handler_error_returned (c : Conn) (hc : ReaderIdle' c) (id : Nat) (hh : c.r.hPing = .fail id)
+    (key : Key) (payload rest : Bytes) (hl : payload.length ≤ 125) (hcnt : c.r.errCount = 0)
+    (hp : c.r.buf.pending = PFrame.enc c.r.isServer ⟨9, true, key, payload⟩ ++ rest) :
+    ∃ c', nextReader c = (.err (.handler id), c') ∧ c'.r.readErr = some (.handler id) ∧
+      c'.r.hlog = c.r.hlog ++ [.ping payload] ∧ c'.w.wire = c.w.wire := by
+  first | exact AuditGaps.failing_ping_handler .. | (apply AuditGaps.failing_ping_handler <;> assumption)
 
 
 /-! ### non-vacuity -/
